@@ -257,7 +257,8 @@ fn gen_c07(seed: u64, tier: Tier) -> ResolvePlan {
         mutual_sibling_ns: knobs.server.sibling_glue && r.chance(0.6),
         // out-of-zone servers whose addresses have to be looked up every time
         zero_ttl_outside_ns_addresses: *r.pick(&[0u8, 0, 0, 60]),
-        short_ttl_value: 1,
+        // (now and then addresses that cannot be cached at all: TTL 0; own random stream)
+        short_ttl_value: if Rng::new(seed ^ 0x0771_0000_a5a5).chance(0.35) { 0 } else { 1 },
         ghost_ns_percent: 0,
         parent_ns_serves_child_percent: 0,
     };
@@ -609,7 +610,7 @@ pub fn compare_with_expected(
             vs.push(fail("c07.chain_wrong", format!("position {i}: {}", show_rr(&rrs[i]))));
             return;
         }
-        if rrs[i].ttl > c.ttl || rrs[i].ttl == 0 {
+        if rrs[i].ttl > c.ttl || (rrs[i].ttl == 0 && c.ttl > 0) {
             vs.push(fail("c07.ttl_out_of_range", format!("{}", show_rr(&rrs[i]))));
         }
     }
@@ -632,7 +633,7 @@ pub fn compare_with_expected(
     }
     for f in &rrs[e.chain.len()..] {
         let auth = e.finals.iter().find(|x| rr_key(x) == rr_key(f)).unwrap();
-        if f.ttl > auth.ttl || f.ttl == 0 {
+        if f.ttl > auth.ttl || (f.ttl == 0 && auth.ttl > 0) {
             vs.push(fail("c07.ttl_out_of_range", show_rr(f)));
         }
     }
